@@ -333,7 +333,7 @@ m("o31-writev-eats-into-the-callers-batch", "C02", "C02/", (CU,
 				pos = i
 				break"""))
 
-m("o32-eventloop-register-checks-the-address-first", "C19", "answer/EventLoop", (EL,
+m("o32-eventloop-register-checks-the-address-first", "C19", "answer/EventLoop.Register", (EL,
   """func (el *eventloop) Register(ctx context.Context, addr net.Addr) (<-chan RegisteredResult, error) {
 	if el.engine.isShutdown() {
 		return nil, errorx.ErrEngineInShutdown
